@@ -1298,7 +1298,7 @@ class Sim:
         else:
             rec['args'] = list(params)
             # request storm detector: the same request repeated at XML-RPC speed is a livelock of the real code
-            key = (rec['src'], rec['dst'], m, repr(rec['args']))
+            key = (rec['src'], rec['dst'], m)
             if key == self.storm_key and self.now_us - self.storm_t0 < 2 * US:
                 self.storm_count += 1
                 if self.storm_count > 300 and self.aborted is None:
@@ -1306,7 +1306,7 @@ class Sim:
                     self.storm = {'src': rec['src'], 'dst': rec['dst'], 'method': m, 'args': rec['args'],
                                   'outcome': rec.get('outcome'), 'fault': rec.get('fault'), 't_us': self.now_us}
                     self.stats['storm'] += 1
-            else:
+            elif key != self.storm_key or self.now_us - self.storm_t0 >= 2 * US:
                 self.storm_key, self.storm_count, self.storm_t0 = key, 1, self.now_us
         self.wire.append(rec)
         self.note('rpc', rec['src'], rec['dst'], m, rec.get('header'), rec['outcome'])
